@@ -199,13 +199,7 @@ func (h *hEnv) hStep(mask int, maxVK int) {
 		vsym.Assert(e.TriggerCompaction() == nil, "TriggerCompaction failed")
 	case hRetire:
 		vsym.Assert(e.Close() == nil, "Close failed")
-		ents, err := os.ReadDir(filepath.Join(h.dir, "wal"))
-		vsym.Assert(err == nil, "ReadDir(wal) failed")
-		for _, en := range ents {
-			if !en.IsDir() && filepath.Ext(en.Name()) == ".wal" {
-				vsym.Assert(os.Remove(filepath.Join(h.dir, "wal", en.Name())) == nil, "removing a retired log file failed")
-			}
-		}
+		h.retireLogs()
 		h.hOpen(false, false)
 		h.retires++
 	}
@@ -238,6 +232,17 @@ func (h *hEnv) hProbe() {
 		vsym.Assert(ok, "get returns bytes that are not the latest put of the key")
 	} else {
 		vsym.Assert(vsym.Not(expect), "get does not find a key whose latest write is a put")
+	}
+}
+
+// retireLogs removes every log file, like WAL retention removes files whose contents are all flushed.
+func (h *hEnv) retireLogs() {
+	ents, err := os.ReadDir(filepath.Join(h.dir, "wal"))
+	vsym.Assert(err == nil, "ReadDir(wal) failed")
+	for _, en := range ents {
+		if !en.IsDir() && filepath.Ext(en.Name()) == ".wal" {
+			vsym.Assert(os.Remove(filepath.Join(h.dir, "wal", en.Name())) == nil, "removing a retired log file failed")
+		}
 	}
 }
 
